@@ -3,6 +3,10 @@
 S = "internal/server"
 
 CHECKS = {
+    "C19": {"level": "model_checking",
+            "parts": [{"pkg": S, "check": "c19", "shards": 16, "gomaxprocs": 2}],
+            "quick": {"budget_s": 100, "params": {"depth": 3}},
+            "thorough": {"budget_s": 900, "params": {"depth": 4}}},
     "C01": {"level": "model_checking",
             "parts": [{"pkg": S, "check": "c01", "shards": 16, "gomaxprocs": 2}],
             "quick": {"budget_s": 100, "params": {"depth": 3, "alphabet": "thorough"}},
@@ -10,6 +14,7 @@ CHECKS = {
     "C08": {"level": "model_checking",
             "parts": [{"pkg": S, "check": "c08", "shards": 16, "gomaxprocs": 1}],
             "quick": {"budget_s": 80}, "thorough": {"budget_s": 500}},
+    "probe": {"level": "exploration", "parts": [{"pkg": S, "check": "probe", "shards": 1}], "quick": {"budget_s": 30}},
     "smoke": {"level": "exploration", "parts": [{"pkg": S, "check": "smoke", "shards": 1}],
               "quick": {"budget_s": 30}},
 }
